@@ -370,6 +370,16 @@ def readLocal (s : St) (wr : Nat) : Option (Nat × Nat) :=
     | none => none
   else none
 
+/-- The scripted body of an entity world reactor also goes through `EntityLocal::get_mut`: every run caused by an entity adds
+    100 to that entity's local data (what later runs for it must then see). -/
+def bumpLocal (s : St) (isEwr : Option Nat) : St :=
+  match isEwr with
+  | some wr =>
+    match readLocal s wr with
+    | some (e, v) => { s with ewLocal := upd s.ewLocal e (aset (s.ewLocal e) wr (v + 100)) }
+    | none => s
+  | none => s
+
 /-- What the first statement of a scripted body observes. System events are *taken*. -/
 def observe (s : St) (isEwr : Option Nat) : Obs × St :=
   let tys := List.range numTy
@@ -393,7 +403,7 @@ def observe (s : St) (isEwr : Option Nat) : Obs × St :=
     loc := match isEwr with
       | some wr => [readLocal s wr]
       | none => [] }
-  (obs, s')
+  (obs, bumpLocal s' isEwr)
 
 
 
